@@ -29,7 +29,7 @@ class C09(SCheck):
     def gen_plans(self, r, case, k):
         if case.get("race_shape"):
             plans = []
-            for j in range(6):
+            for j in range(16):
                 sp = gen.sched_plan(r, ustep=1.0)
                 sp["ustep_budget"] = 300
                 plans.append({"seed": r.randrange(1 << 48), "sched": sp})
